@@ -19,6 +19,8 @@ TECHNIQUE += '; byte-accurate abstract evaluation of the byte-order branches on 
 
 EXPLANATION += ' DS-ITEM by evaluation on K1.'
 
+EXPLANATION += ' PORT-ENDIAN-PAIR.'
+
 
 def run(ctx, R):
     F1 = portable.rule_typecheck(ctx, R, 'K1')
